@@ -13,6 +13,7 @@ Payload text is hex-encoded UTF-8.  Datum notation as in the harness:
 Floats are printed as `F?<hex of the decimal text>` (the orchestrator converts them to bits).
 -/
 import SteelVerif.C12.Model
+import SteelVerif.C12.Ast
 namespace SteelVerif.C12
 
 def hexNibble (n : Nat) : Char := hexDigitLower (n % 16)
@@ -286,6 +287,73 @@ def doPrint (cs : List Char) : String :=
       s!"text={hexOfText text} back={(showRead back).replace " " "_"} equal={eq}"
   | _ => "bad datum"
 
+/-! ### programs: `ast <hex>` -/
+
+def dumpAtomTok : Datum → String
+  | .int i => s!"anum:int:{i}"
+  | .rat n d => s!"anum:rat:{n}/{d}"
+  | .bool b => if b then "abool:t" else "abool:f"
+  | .chr c => s!"achar:{natHex c.toNat}"
+  | .str s => s!"astr:{hexOfText s}"
+  | .sym s =>
+    if isKwName s then s!"akw:{String.ofList s}"
+    else if (t!"#:").isPrefixOf s then s!"akey:{hexOfText s}"
+    else s!"aid:{hexOfText s}"
+  | .flo (.flo t) => s!"anum:flt?{hexOfText t}"
+  | _ => "a?"
+
+/-- the elements of a quoted improper list, flattened as `List::make_improper` does -/
+partial def pairElems : Datum → List Datum
+  | .pair a d => a :: pairElems d
+  | d => [d]
+
+mutual
+/-- a quoted datum (an unlowered expression tree: lists, improper lists, vectors, atoms) -/
+partial def dumpQuoted : Datum → List String
+  | .list xs => s!"L{xs.length}" :: dumpQuoteds xs
+  | .pair a d => let es := a :: pairElems d; s!"L{es.length}i" :: dumpQuoteds es
+  | .vec xs => s!"V{xs.length}" :: dumpQuoteds xs
+  | .bytes bs => s!"V{bs.length}b" :: bs.map (fun b => s!"anum:int:{b}")
+  | d => [dumpAtomTok d]
+partial def dumpQuoteds : List Datum → List String
+  | [] => []
+  | x :: xs => dumpQuoted x ++ dumpQuoteds xs
+end
+
+mutual
+partial def dumpAst : Ast → List String
+  | .atom d => [dumpAtomTok d]
+  | .ifE c t e => "I" :: (dumpAst c ++ dumpAst t ++ dumpAst e)
+  | .define n b => "D" :: s!"aid:{hexOfText n}" :: dumpAst b
+  | .lambda args r b =>
+    (s!"F{args.length}" ++ (if r then "r" else "")) :: (args.map (fun a => s!"aid:{hexOfText a}") ++ dumpAst b)
+  | .begin es => s!"G{es.length}" :: dumpAsts es
+  | .quote d => "Q" :: dumpQuoted d
+  | .set v e => "S" :: (dumpAst v ++ dumpAst e)
+  | .app es => s!"L{es.length}" :: dumpAsts es
+partial def dumpAsts : List Ast → List String
+  | [] => []
+  | x :: xs => dumpAst x ++ dumpAsts xs
+end
+
+def joinWith (sep : String) : List String → String
+  | [] => ""
+  | [x] => x
+  | x :: r => x ++ sep ++ joinWith sep r
+
+def nlJoin : List Text → Text
+  | [] => []
+  | [x] => x
+  | x :: r => x ++ '\n' :: nlJoin r
+
+def doAst (src : Text) : String :=
+  match parseM src with
+  | .readErr e => showReadErr e
+  | .lowerErr .syntax => "err lower-syntax 0 0"
+  | .lowerErr .unmodelled => "unmodelled"
+  | .ok as =>
+    s!"ok {as.length} ast={joinWith "_" (dumpAsts as)} text={hexOfText (nlJoin (as.map prettyM))}"
+
 def wsTable : String := Id.run do
   let mut out := ""
   let mut start : Option Nat := none
@@ -308,6 +376,10 @@ def handle (line : String) : String :=
     match textOfHex arg with
     | none => "bad hex"
     | some src => if opS == "lex" then doLex src else showRead (read src)
+  else if opS == "ast" then
+    match textOfHex arg with
+    | none => "bad hex"
+    | some src => doAst src
   else if opS == "write" then doDatum arg false
   else if opS == "roundtrip" then doDatum arg true
   else if opS == "printrt" then doPrint arg
